@@ -30,11 +30,12 @@ const (
 	f3 = "never-occurs"
 	f4 = "ERR:"
 	f5 = "a failure string that is longer than the shortest outputs" // never occurs
+	f6 = "\n% "                                                      // line-anchored: occurs in no single output below except the two-line one, but at the seam when outputs are joined by line feeds
 )
 
-var outs = []string{"all fine, E a", "x " + f1 + " detected", "y " + f2 + " value", f2 + " and\n" + f1 + " both", f4 + " no", f1}
+var outs = []string{"all fine, E a", "x " + f1 + " detected", "y " + f2 + " value", f2 + " and\n" + f1 + " both", "% " + f4 + " no", f1}
 
-var drvLists = [][]string{nil, {f1}, {f1, f2}, {f5, f4, f1}}
+var drvLists = [][]string{nil, {f1}, {f1, f2, f6}, {f5, f4, f1}}
 var opLists = [][]string{nil, {f2}, {f3}}
 var apis = []string{"generic.SendCommand", "generic.SendCommands", "generic.SendCommandsFromFile", "network.SendCommands", "network.SendConfigs", "network.SendConfig", "network.SendConfigsFromFile"}
 
@@ -348,7 +349,7 @@ func TestCheck(t *testing.T) {
 	sched.Main(t, sched.Check{
 		ID:          "C13",
 		Level:       "exploration",
-		Rule:        "exhaustive product: API (generic SendCommand/SendCommands/SendCommandsFromFile, network SendCommands/SendConfigs/SendConfig/SendConfigsFromFile) x command lists of length 1..4 (5 thorough) x per-command output in {clean, contains F1, contains F2, contains both, short with F4, exactly F1} x {the operation's options alone, an unrelated channel-level option before them / between them (n<=2)} x {distinct commands, equal commands for equal outputs (n=2,3)} x driver-level list {none,[F1],[F1,F2],[long never-occurring, F4, F1]} x operation-level list {none,[F2],[F3 never occurring]} x stop-on-failed (an operation with its own list is followed by the same commands without options); each cell is a real session over the CLI device model (which logs what it receives), 0 schedule deviations; oracle = reference rule of the property; distinct = distinct cells",
+		Rule:        "exhaustive product: API (generic SendCommand/SendCommands/SendCommandsFromFile, network SendCommands/SendConfigs/SendConfig/SendConfigsFromFile) x command lists of length 1..4 (5 thorough) x per-command output in {clean, contains F1, contains F2, contains both, short with F4, exactly F1} x {the operation's options alone, an unrelated channel-level option before them / between them (n<=2)} x {distinct commands, equal commands for equal outputs (n=2,3)} x driver-level list {none,[F1],[F1,F2,a line-anchored string that only matches where two outputs are joined],[long never-occurring, F4, F1]} x operation-level list {none,[F2],[F3 never occurring]} x stop-on-failed (an operation with its own list is followed by the same commands without options); each cell is a real session over the CLI device model (which logs what it receives), 0 schedule deviations; oracle = reference rule of the property; distinct = distinct cells",
 		Assumptions: []string{"no schedule dimension in the property: whole-buffer reads, default schedule"},
 		Scenarios:   scenarios,
 		Budget:      map[string]time.Duration{"quick": 4 * time.Minute, "thorough": 30 * time.Minute},
